@@ -112,7 +112,7 @@ func checkC12(cx *Ctx, r *Report) {
 		if cf := k.sig.Fn("cond"); cf != nil {
 			// the signature inspected is the query's
 			if mc, isCall := k.sig.Arg["cond"].(*ssa.Call); isCall && len(mc.Call.Args) == 1 {
-				r.Check(cx.getterSuffix(mc.Call.Args[0], "attrQuery.Signature"), "R-VFG", "attr:sig:subject", k.sig.Pos, "inspects attrQuery.Signature", "the 'signature provided' test does not look at the query's Signature element")
+				r.Check(cx.getterSuffix(mc.Call.Args[0], "<samlp.AttributeQueryType>.Signature"), "R-VFG", "attr:sig:subject", k.sig.Pos, "inspects attrQuery.Signature", "the 'signature provided' test does not look at the query's Signature element")
 			}
 		}
 	}
@@ -155,10 +155,11 @@ func checkC12(cx *Ctx, r *Report) {
 
 	// --- destination -------------------------------------------------------------------
 	cx.checkDestination(r, "provider.verifyRequestDestinationOfAttrQuery", "AttributeService")
+	cx.checkDestinationContent(r, kAttr, "attr", "provider.verifyRequestDestinationOfAttrQuery")
 	vf := cx.vflow(kAttr)
 	lsm, ms := vf.CallArgSources(matchFnKey(w, "provider.verifyRequestDestinationOfAttrQuery"), 0)
 	if len(ms) > 0 {
-		r.checkSources("R-VFG", "attr:destination:metadata", w.InstrPos(ms[0]), lsm, []string{"alloc:provider.(*IdentityProviderConfig).getMetadata/*"}, []string{"alloc:provider.(*IdentityProviderConfig).getMetadata/*"}, false)
+		r.checkSources("R-VFG", "attr:destination:metadata", w.InstrPos(ms[0]), lsm, []string{"alloc:{md.AttributeAuthorityDescriptorType}*"}, []string{"alloc:{md.AttributeAuthorityDescriptorType}*"}, false)
 		lq, _ := vf.CallArgSources(matchFnKey(w, "provider.verifyRequestDestinationOfAttrQuery"), 1)
 		r.checkSources("R-VFG", "attr:destination:query", w.InstrPos(ms[0]), lq, []string{"decoded:soap.AttributeQueryEnvelope.Body.AttributeQuery"}, []string{"decoded:soap.AttributeQueryEnvelope.Body.AttributeQuery"}, true)
 	}
@@ -207,22 +208,22 @@ func checkC12(cx *Ctx, r *Report) {
 	add("ResponseType.InResponseTo", ls, len(s1), []string{q + ".Id"}, []string{q + ".Id"}, true)
 	ls, s2 := vf.FieldStoreSources("saml.SubjectConfirmationDataType", "InResponseTo")
 	add("SubjectConfirmationData.InResponseTo", ls, len(s2), []string{q + ".Id"}, []string{q + ".Id"}, true)
-	ls, s3 := vf.StoreSourcesIn("provider.makeAssertion", "saml.AudienceRestrictionType", "Audience")
+	ls, s3 := vf.FieldStoreSources("saml.AudienceRestrictionType", "Audience")
 	add("Audience", vf.Deep(ls), len(s3), []string{"ext:iface:provider.IDPStorage.GetEntityByID#0.Metadata.EntityID"}, []string{"ext:iface:provider.IDPStorage.GetEntityByID#0.Metadata.EntityID"}, true)
 	ls, c1 := vf.CallArgSources(matchStorage("SetUserinfoWithLoginName"), 2)
 	add("SetUserinfoWithLoginName:loginName", ls, len(c1), []string{q + ".Subject.NameID.Text"}, []string{q + ".Subject.NameID.Text"}, true)
 	ls, c2 := vf.CallArgSources(matchStorage("GetEntityByID"), 1)
 	add("GetEntityByID:entityID", ls, len(c2), []string{q + ".Issuer.Text"}, []string{q + ".Issuer.Text"}, true)
 	ls, c3 := vf.CallArgSources(matchFnKey(w, "provider.createPostSignature"), 0)
-	add("createPostSignature:response", ls, len(c3), []string{"alloc:provider.makeResponse/*"}, []string{"alloc:provider.makeResponse/*"}, false)
+	add("createPostSignature:response", ls, len(c3), []string{"alloc:{samlp.ResponseType}*"}, []string{"alloc:{samlp.ResponseType}*"}, false)
 	ls, c4 := vf.CallArgSources(matchFnKey(w, "provider.makeAttributeQueryResponse"), 3)
-	add("makeAttributeQueryResponse:attributes", ls, len(c4), []string{"alloc:provider.(*IdentityProvider).attributeQueryHandleFunc/*"}, nil, false)
+	add("makeAttributeQueryResponse:attributes", ls, len(c4), []string{"alloc:{provider.Attributes}*"}, nil, false)
 	ls, c5 := vf.CallArgSources(matchStorage("SetUserinfoWithLoginName"), 1)
-	add("SetUserinfoWithLoginName:setter", ls, len(c5), []string{"alloc:provider.(*IdentityProvider).attributeQueryHandleFunc/*"}, nil, false)
+	add("SetUserinfoWithLoginName:setter", ls, len(c5), []string{"alloc:{provider.Attributes}*"}, nil, false)
 	ls, c6 := vf.CallArgSources(matchFnKey(w, "provider.makeAttributeQueryResponse"), 4)
 	add("makeAttributeQueryResponse:queried", vf.Deep(ls), len(c6), []string{q + ".Attribute[]", q + ".Attribute", "alloc:*"}, []string{q + ".Attribute[]"}, false)
 	ls, s7 := vf.FieldStoreSources("soap.ResponseBody", "Response")
-	add("soap.ResponseBody.Response", ls, len(s7), []string{"alloc:provider.makeResponse/*"}, []string{"alloc:provider.makeResponse/*"}, false)
+	add("soap.ResponseBody.Response", ls, len(s7), []string{"alloc:{samlp.ResponseType}*"}, []string{"alloc:{samlp.ResponseType}*"}, false)
 	for _, s := range sinks {
 		if s.n == 0 {
 			r.Fail("R-VFG", "attr:"+s.key, "", "sink not found in the attribute-query handler's scope")
@@ -309,7 +310,7 @@ func (cx *Ctx) checkAttrFilter(r *Report) {
 			u, eqName, eqFmt := false, false, false
 			var nameOther, fmtOther string
 			for _, a := range pt.Atoms {
-				if (a.Op == "EMPTY" || a.Op == "NIL") && !a.Neg && strings.HasSuffix(a.A, "/queriedAttrs") {
+				if (a.Op == "EMPTY" || a.Op == "NIL") && !a.Neg && strings.HasPrefix(a.TA, "<#") && strings.HasSuffix(a.TA, "[]saml.AttributeType>") {
 					u = true
 				}
 				if a.Op == "EQ" && !a.Neg {
@@ -344,7 +345,7 @@ func (cx *Ctx) checkAttrFilter(r *Report) {
 		}
 		userOnly := len(elemL) > 0
 		for _, l := range elemL {
-			if !strings.HasPrefix(l, "alloc:provider.(*Attributes).GetSAML/") {
+			if !strings.HasPrefix(l, "alloc:{saml.AttributeType}") {
 				userOnly = false
 			}
 		}
